@@ -30,7 +30,7 @@ for l in open(sys.argv[1]):
     sid, _, v, u = m.groups()
     v = set(ast.literal_eval(v or '[]'))
     u = set(ast.literal_eval(u or '[]'))
-    meta = json.load(open(os.path.join(HERE, 'seeded', sid, 'meta.json')))
+    meta = json.load(open(os.path.join(os.environ.get('REGRESS_SEEDED') or os.path.join(HERE, 'seeded'), sid, 'meta.json')))
     if meta.get('expected') == 'exit0':
         if v:
             print(f"FALSE-ALARM {sid} {sorted(v)}")
